@@ -126,7 +126,8 @@ struct ReaderCfg { int n; bool delta[3]; };
 //   small alphabet: attribute sets {} and {a=1}, one value (up-down: +1 and -1)
 //   reps: one reader configuration per multiset of temporalities (readers are interchangeable up to
 //         their position in the collector list); otherwise all 14 ordered configurations
-struct Part { int depth; bool small; bool reps; };
+//   two: (with reps) only the five representatives with at most two readers
+struct Part { int depth; bool small; bool reps; bool two; };
 std::vector<Part> g_parts;
 std::vector<ReaderCfg> g_readers_all, g_readers_rep;
 int g_max_handles = 2;
@@ -146,10 +147,10 @@ void setup(vf::Options &o) {
       g_readers_all.push_back(rc);
     }
   g_readers_rep = {{1, {D}}, {1, {C}}, {2, {D, D}}, {2, {D, C}}, {2, {C, C}}, {3, {D, D, C}}, {3, {D, C, C}}, {3, {C, D, D}}};
-  if (o.thorough) g_parts = {{5, false, false}, {6, false, true}, {7, true, true}};
-  else g_parts = {{5, false, true}};
+  if (o.thorough) g_parts = {{5, false, false, false}, {6, false, true, true}, {7, true, true, false}};
+  else g_parts = {{5, false, true, false}};
   std::string d = o.get("depth");
-  if (!d.empty()) g_parts = {{atoi(d.c_str()), o.get("small") == "1", o.get("allreaders") != "1"}};
+  if (!d.empty()) g_parts = {{atoi(d.c_str()), o.get("small") == "1", o.get("allreaders") != "1", o.get("two") == "1"}};
 }
 
 struct ReaderStream {
@@ -213,7 +214,7 @@ void run(vf::Ctx &c) {
   const Kind kind = (Kind)c.pick("kind", 3);
   const int nviews = c.pick("views", 3);
   const std::vector<ReaderCfg> &g_readers = P.reps ? g_readers_rep : g_readers_all;
-  const int rcfg = c.pick("readers", (int)g_readers.size());
+  const int rcfg = c.pick("readers", P.two ? 5 : (int)g_readers.size());
   const ReaderCfg &RC = g_readers[rcfg];
   const int n_attr = P.small ? 2 : NATTR;
   const int n_val = P.small ? kNValSmall[kind] : kNVal[kind];
